@@ -115,6 +115,7 @@ type job struct {
 	Prefix   []PrefixEntry `json:"prefix"`
 	Bound    int           `json:"bound"`
 	Deadline int64         `json:"deadline"` // unix nanos; 0 = none
+	MaxExecs int64         `json:"max_execs"` // subtree jobs: after this many executions hand the rest of the frontier back
 	Tier     string        `json:"tier"`
 }
 
@@ -294,51 +295,33 @@ func children(c *Chooser, from int, bound int) [][]PrefixEntry {
 	return out
 }
 
-// subtree explores the execution at prefix and everything below it, depth first.
-func (r *runner) subtree(prefix []PrefixEntry) bool {
-	if r.res.HarnessErr != "" {
-		return false
-	}
-	if !r.deadline.IsZero() && time.Now().After(r.deadline) {
-		return false
-	}
-	c, cs := r.execute(prefix, false)
-	if r.res.HarnessErr != "" {
-		return false
-	}
-	r.record(c, cs)
-	// iterate children without materialising all prefixes at once
-	dev := 0
-	for i := 0; i < len(prefix); i++ {
-		if !c.Points[i].Free && c.Points[i].Choice != 0 {
-			dev++
+// subtree explores the execution at prefix and everything below it, depth first, with an explicit
+// stack. After maxExecs executions (or at the deadline) the unexplored frontier is handed back so the
+// coordinator can redistribute it: the set explored is independent of how the work was cut.
+func (r *runner) subtree(prefix []PrefixEntry, maxExecs int64) (frontier [][]PrefixEntry) {
+	stack := [][]PrefixEntry{prefix}
+	var n int64
+	for len(stack) > 0 {
+		if r.res.HarnessErr != "" {
+			return nil
+		}
+		if (maxExecs > 0 && n >= maxExecs) || (!r.deadline.IsZero() && n%16 == 0 && time.Now().After(r.deadline)) {
+			return stack
+		}
+		pre := stack[len(stack)-1]
+		stack = stack[:len(stack)-1]
+		c, cs := r.execute(pre, false)
+		if r.res.HarnessErr != "" {
+			return nil
+		}
+		n++
+		r.record(c, cs)
+		ch := children(c, len(pre), r.bound)
+		for i := len(ch) - 1; i >= 0; i-- {
+			stack = append(stack, ch[i])
 		}
 	}
-	base := make([]PrefixEntry, len(c.Points))
-	for j := range c.Points {
-		base[j] = PrefixEntry{C: c.Points[j].Choice, H: c.hashes[j]}
-	}
-	for i := len(prefix); i < len(c.Points); i++ {
-		p := c.Points[i]
-		cost := dev
-		if !p.Free {
-			cost++
-		}
-		if r.bound < 0 || cost <= r.bound {
-			for alt := 1; alt < p.N; alt++ {
-				pre := make([]PrefixEntry, i+1)
-				copy(pre, base[:i])
-				pre[i] = PrefixEntry{C: alt, H: base[i].H}
-				if !r.subtree(pre) {
-					return false
-				}
-			}
-		}
-		if !p.Free && p.Choice != 0 {
-			dev++
-		}
-	}
-	return true
+	return nil
 }
 
 func (r *runner) finish() {
@@ -427,7 +410,8 @@ func runWorker(cfg *Config) {
 				}
 				res.Complete = true
 			case "subtree":
-				res.Complete = r.subtree(j.Prefix)
+				res.Children = r.subtree(j.Prefix, j.MaxExecs)
+				res.Complete = true
 			case "one":
 				c, cs := r.execute(j.Prefix, true)
 				if res.HarnessErr == "" {
